@@ -322,10 +322,10 @@ func c09Stack() string {
 // Terminated was never sent (an actor outside the tree, or the finding
 // stop-before-death-watch-registration) the count is never reached: then idle +
 // empty + an unchanged count for two seconds without interruption is accepted.
-func (e *c09Env) settle(postStops func() int64) bool {
+func (e *c09Env) settle(postStops func() int64) (ok, complete bool) {
 	dw := e.sys.getDeathWatch()
 	if dw == nil {
-		return true
+		return true, true
 	}
 	deadline := time.Now().Add(c09Cap)
 	var stableSince time.Time
@@ -334,20 +334,20 @@ func (e *c09Env) settle(postStops func() int64) bool {
 		n := dw.ProcessedCount()
 		idle := dw.schedState.Load() == dispatchIdle
 		if idle && int64(n) >= e.dwBase+postStops() {
-			return true
+			return true, true
 		}
 		if idle && n == last && dw.mailbox.IsEmpty() && dw.systemMailbox.IsEmpty() {
 			if stableSince.IsZero() {
 				stableSince = time.Now()
 			} else if time.Since(stableSince) > 2*time.Second {
-				return true
+				return true, false
 			}
 		} else {
 			stableSince = time.Time{}
 		}
 		last = n
 		if time.Now().After(deadline) {
-			return false
+			return false, false
 		}
 		time.Sleep(200 * time.Microsecond)
 	}
@@ -558,9 +558,19 @@ func c09Exec(x *vfkit.X, c c09Case) {
 	select {
 	case <-done:
 	case <-time.After(2 * c09Cap):
+		// An action that does not return within 30 s (seen: PID.Restart spinning in
+		// restartSubtree's "wait until not running" loop after a concurrent restart
+		// re-initialised the actor). Nothing can be judged; the goroutine and its
+		// system are abandoned so that the run goes on.
 		x.Class("inconclusive_action_did_not_return")
+		for i, r := range results {
+			if r.end == 0 {
+				x.Note("action_did_not_return", fmt.Sprintf("%s(n%d) of %d actions", c09KindNames[c.Actions[i].Kind], c.Actions[i].Target, len(c.Actions)))
+			}
+		}
 		vfsched.SetNoise(0, 0, 0)
-		<-done
+		stopped = true
+		go func() { _ = sys.Stop(context.Background()) }()
 		return
 	}
 	for _, r := range results {
@@ -568,9 +578,9 @@ func c09Exec(x *vfkit.X, c c09Case) {
 			stopped = true
 		}
 	}
-	settled := true
+	settled, accounted := true, true
 	if !stopped {
-		settled = e.settle(func() int64 {
+		settled, accounted = e.settle(func() int64 {
 			nodesMu.Lock()
 			defer nodesMu.Unlock()
 			var total int64
@@ -587,8 +597,15 @@ func c09Exec(x *vfkit.X, c c09Case) {
 	if !settled {
 		x.Class("inconclusive_deathwatch_not_idle")
 	}
+	if settled && !accounted {
+		// the death watch handled fewer Terminated messages than actors were stopped
+		// and has been idle for 2 s: one was never sent or never delivered. Delivery
+		// is not this property's business; the "no stopped actor stays registered"
+		// clause is not judged for such a case.
+		x.Class("inconclusive_terminated_not_accounted_for")
+	}
 
-	c09Judge(x, e, c, static, nodes, results, stopped, settled && !inconclusive.Load(), knownResolvable)
+	c09Judge(x, e, c, static, nodes, results, stopped, settled && !inconclusive.Load(), accounted, knownResolvable)
 }
 
 // c09AwaitGuardians waits until the root, system and user guardians have handled
@@ -648,7 +665,7 @@ func c09WaitEither(cmd *c09Cmd, n *c09Node, before int64, inconclusive *atomic.B
 
 // ---- oracle ------------------------------------------------------------------------------------
 
-func c09Judge(x *vfkit.X, e *c09Env, c c09Case, static, nodes []*c09Node, results []*c09Result, sysStopped, conclusive, knownResolvable bool) {
+func c09Judge(x *vfkit.X, e *c09Env, c c09Case, static, nodes []*c09Node, results []*c09Result, sysStopped, conclusive, accounted, knownResolvable bool) {
 	depths := c09Depths(c.Nodes)
 	for _, n := range nodes {
 		par := "-"
@@ -821,7 +838,7 @@ func c09Judge(x *vfkit.X, e *c09Env, c c09Case, static, nodes []*c09Node, result
 					}
 					if concurrentStopBelow(nil, ch, ch.parent) || sysStopRace(ch) {
 						if !knownSkip {
-							x.Failf(c09FpSkip, "%s entered PostStop at t=%d while its child %s, which another action was stopping at the same time, had not completed PostStop (enter t=%d, exit t=%d): freeChildren only shuts down children that are running or suspended and does not wait for one that is already stopping\n%s", ch.parent.name, pl.postEnter, ch.name, cl.postEnter, cl.postExit, desc())
+							fail(c09FpSkip, "%s entered PostStop at t=%d while its child %s, which another action was stopping at the same time, had not completed PostStop (enter t=%d, exit t=%d): freeChildren only shuts down children that are running or suspended and does not wait for one that is already stopping\n%s", ch.parent.name, pl.postEnter, ch.name, cl.postEnter, cl.postExit, desc())
 						}
 						hit(c09FpSkip, "known_parent_skips_stopping_child")
 						continue
@@ -852,7 +869,7 @@ func c09Judge(x *vfkit.X, e *c09Env, c c09Case, static, nodes []*c09Node, result
 				}
 				if concurrentStopBelow(r, byName(name), tgt) || sysStopRace(byName(name)) {
 					if !knownSkip {
-						x.Failf(c09FpSkip, "%s(%s) returned nil while %s, which another action was stopping at the same time, %s\n%s", c09KindNames[r.act.Kind], tgt.name, name, what, desc())
+						fail(c09FpSkip, "%s(%s) returned nil while %s, which another action was stopping at the same time, %s\n%s", c09KindNames[r.act.Kind], tgt.name, name, what, desc())
 					}
 					hit(c09FpSkip, "known_parent_skips_stopping_child")
 					continue
@@ -944,7 +961,7 @@ func c09Judge(x *vfkit.X, e *c09Env, c c09Case, static, nodes []*c09Node, result
 				}
 				if sysStopRace(n) {
 					if !knownSkip {
-						x.Failf(c09FpSkip, "%s survives system.Stop (running=%v, PostStop ran=%v): an explicit stop of it or of an ancestor was in progress, the user guardian's freeChildren skipped that actor, system.Stop returned and reset the tree, and the explicit stop no longer found any children\n%s", n.name, alive, !hookAlive, desc())
+						fail(c09FpSkip, "%s survives system.Stop (running=%v, PostStop ran=%v): an explicit stop of it or of an ancestor was in progress, the user guardian's freeChildren skipped that actor, system.Stop returned and reset the tree, and the explicit stop no longer found any children\n%s", n.name, alive, !hookAlive, desc())
 					}
 					hit(c09FpSkip, "known_parent_skips_stopping_child")
 					continue
@@ -960,7 +977,7 @@ func c09Judge(x *vfkit.X, e *c09Env, c c09Case, static, nodes []*c09Node, result
 			if sysStopped {
 				if sysStopRace(n) {
 					if !knownSkip {
-						x.Failf(c09FpSkip, "%s is running although system.Stop returned nil: an explicit stop of it or of an ancestor was in progress and was skipped by the user guardian\n%s", n.name, desc())
+						fail(c09FpSkip, "%s is running although system.Stop returned nil: an explicit stop of it or of an ancestor was in progress and was skipped by the user guardian\n%s", n.name, desc())
 					}
 					hit(c09FpSkip, "known_parent_skips_stopping_child")
 					continue
@@ -997,7 +1014,7 @@ func c09Judge(x *vfkit.X, e *c09Env, c c09Case, static, nodes []*c09Node, result
 				fail(("live-actor-not-resolvable"), "ActorOf(%s) = (%v, %v) for a running actor\n%s", n.name, got != nil, err, desc())
 			}
 		} else {
-			if sysStopped {
+			if sysStopped || !accounted {
 				continue
 			}
 			if node, ok := e.sys.tree().node(n.pid.ID()); ok && node.value() == n.pid {
